@@ -48,7 +48,7 @@ def make_run(W, shape, known_active=None):
     methods = shape["methods"]
     M = len(methods)
     call = shape["call"]
-    key = repr(methods)
+    key = repr((n, methods))          # (index n means `object`: the same method list denotes other types for another n)
     ms = _MS_CACHE.get(key)
     if ms is None:
         ms = _MS_CACHE[key] = MethodSet(method_specs(shape))
@@ -56,10 +56,13 @@ def make_run(W, shape, known_active=None):
     nargs = len(argcls)
     kwc = call.get("kw")
     # supplied-position type vectors, eligibility (arity / keyword filter of the documentation)
+    # recency order of the definitions: a function object that is registered AGAIN (shape["again"]) becomes the most recent one
+    again = shape.get("again")
+    order = list(range(M)) if again is None else [m for m in range(M) if m != again] + [again]
     sup = []
     elig = []
     sigkey = []
-    for md in methods:
+    for md in [methods[m] for m in order]:
         ok = len(md["pos"]) == nargs
         v = list(md["pos"][:nargs])
         kw = md.get("kw")
@@ -75,7 +78,7 @@ def make_run(W, shape, known_active=None):
         elig.append(ok)
         sigkey.append((tuple(md["pos"]), tuple(kw) if kw is not None else None))
     supcls = argcls + ([kwc] if kwc is not None else [])
-    rule = class_rule(W, sup, supcls, W.P, sigkey=sigkey, eligible=elig)
+    rule = class_rule(W, sup, supcls, [W.P[m] for m in order], sigkey=sigkey, eligible=elig)
     # registered types per supplied position/name (what ovld's per-position table contains)
     regs = []
     for k in range(nargs):
@@ -90,6 +93,8 @@ def make_run(W, shape, known_active=None):
             # return annotations differ from method to method: they play no part in the rule (identical parameter types = identical signature)
             hs[m].__annotations__ = dict(hs[m].__annotations__, **{"return": (int, str, float, list)[m % 4]})
             ov.register(hs[m], priority=W.prio[m])
+        if again is not None:
+            ov.register(hs[again], priority=W.prio[again])       # the very same function object, same priority: now the most recent definition
         args = [W.inst[c] if c != n else object() for c in argcls]
         kwargs = {"k": (W.inst[kwc] if kwc != n else object())} if kwc is not None else {}
         out, res = outcome_of(lambda: ov.dispatch(*args, **kwargs), LOG)
@@ -124,7 +129,7 @@ def make_run(W, shape, known_active=None):
         elif out[0] == "AMB":
             post = z3.And(anyapp, z3.Not(anywin))
         elif out[0] == "ran" and out[1] is not None:
-            a = out[1]
+            a = order.index(out[1])
             post = wins[a]
             if KNOWN_LEVELS in known_active:
                 okk = levels_mechanism(ctx, rule, regs, a)
@@ -182,7 +187,13 @@ def gen_shapes(tier, seed):
     for perm in itertools.permutations(range(n2 + 1)):
         for second in itertools.product(range(n2 + 1), repeat=4):
             fam5.append(dict(n=n2, methods=[dict(pos=[a, b]) for a, b in zip(perm, second)], call=dict(args=[0, 1])))
-    total = len(shapes) + len(fam2) + len(fam3) + len(fam4) + len(fam5)
+    # family 6: the same function object registered again (a, b, a with repeated signatures): it becomes the most recent definition
+    fam6 = []
+    for mt in itertools.product(range(n3 + 1), repeat=3):
+        if len(set(mt)) < 3:
+            for j in (0, 1):
+                fam6.append(dict(n=n3, methods=[dict(pos=[t]) for t in mt], call=dict(args=[0]), again=j))
+    total = len(shapes) + len(fam2) + len(fam3) + len(fam4) + len(fam5) + len(fam6)
     if tier == "quick":
         sampled = True
         rng.shuffle(fam2)
@@ -190,11 +201,11 @@ def gen_shapes(tier, seed):
         rng.shuffle(fam4)
         rng.shuffle(shapes)
         rng.shuffle(fam5)
-        shapes = shapes[:110] + fam2[:400] + fam3[:100] + fam4[:100] + fam5[:260]
+        shapes = shapes[:110] + fam2[:400] + fam3[:100] + fam4[:100] + fam5[:260] + fam6
     else:
         rng.shuffle(fam2)
         sampled = True
-        shapes = shapes + fam2[:6000] + fam3 + fam4 + fam5
+        shapes = shapes + fam2[:6000] + fam3 + fam4 + fam5 + fam6
         # four methods, two positions (sample)
         for _ in range(1500):
             mt = [rng.choice(pool) for _ in range(4)]
